@@ -7,7 +7,8 @@ Open Scope Z_scope.
 Definition mk_ending (k : nat) (a : Z) : ending :=
   match k with 0%nat => Return a | 1%nat => RaiseExc a | 2%nat => ExitNone | 3%nat => ExitInt a | 4%nat => ExitOther
   | 5%nat => RaiseUnsendable | 6%nat => ReturnUnsendable | 7%nat => HardExit a
-  | _ => RaiseExc a            (* 8: an exception of a class that needs several constructor arguments *)
+  | 8%nat => RaiseExc a        (* an exception of a class that needs several constructor arguments *)
+  | _ => ReturnUnloadable a
   end.
 Definition mk_phase (k : nat) : phase :=
   match k with 0%nat => NoKill | 1%nat => KillBefore | 2%nat => KillDuring | 3%nat => KillBetween | _ => KillAfter end.
@@ -19,6 +20,7 @@ Definition payload_code (p : payload) : nat * Z :=
   | PExc e => (2%nat, e)
   | PSysExit n => (3%nat, n) | PSysExitOther => (4%nat, 0)
   | POSErr c => (5%nat, c)
+  | PBad e => (9%nat, e)
   end.
 
 Definition case := (nat * Z * nat * Z * (nat * nat * Z) * bool)%type.
